@@ -72,4 +72,96 @@ theorem VarStack.runOps_inv (ops : List VOp) (v w : VarStack) (h : v.Inv) (hr : 
       exact ih _ (VarStack.step_inv v op h ((VOp.ok_iff v op).mp hok)) hr
     · cases hr
 
+theorem VarStack.runOps_append (a b : List VOp) (v : VarStack) :
+    v.runOps (a ++ b) = (v.runOps a).bind (fun w => w.runOps b) := by
+  induction a generalizing v with
+  | nil => rfl
+  | cons op a ih =>
+    simp only [List.cons_append, VarStack.runOps]
+    split
+    · exact ih _
+    · rfl
+
+/-- a run that succeeds also succeeds on every prefix -/
+theorem VarStack.runOps_prefix (a b : List VOp) (v w : VarStack) (h : v.runOps (a ++ b) = some w) :
+    ∃ u, v.runOps a = some u := by
+  rw [VarStack.runOps_append] at h
+  cases hu : v.runOps a with
+  | none => rw [hu] at h; cases h
+  | some u => exact ⟨u, rfl⟩
+
+theorem VarStack.pops_ok (n : Nat) (v : VarStack) (hn : n ≤ v.size) (hi : v.Inv) :
+    v.runOps (List.replicate n VOp.pop) = some (v.steps (List.replicate n VOp.pop)) ∧
+    (v.steps (List.replicate n VOp.pop)).size = v.size - n ∧ (v.steps (List.replicate n VOp.pop)).Inv := by
+  induction n generalizing v with
+  | zero => exact ⟨rfl, rfl, hi⟩
+  | succ n ih =>
+    have hpos : 0 < v.size := by omega
+    have hok : VOp.ok v .pop = true := by simp [VOp.ok, hpos]
+    have hinv : (v.step .pop).Inv := VarStack.step_inv v .pop hi hpos
+    have hsz : (v.step .pop).size = v.size - 1 := by simp [VarStack.step]
+    have := ih (v.step .pop) (by omega) hinv
+    simp only [List.replicate_succ, VarStack.runOps, hok, if_true, VarStack.steps, List.foldl_cons]
+    refine ⟨this.1, ?_, this.2.2⟩
+    have h2 := this.2.1
+    simp only [VarStack.steps] at h2
+    omega
+
+/-- **A whole block runs within the call discipline**, ends in a state satisfying the invariant, never
+shrinks the stack below where it started, and restores the index it found. -/
+theorem Block.ops_ok (b : Block) (v : VarStack) (hi : v.Inv) (hw : b.WF v) :
+    v.runOps (b.ops v).1 = some (b.ops v).2 ∧ (b.ops v).2.Inv ∧ v.size ≤ (b.ops v).2.size := by
+  induction b generalizing v with
+  | skip => exact ⟨rfl, hi, Nat.le_refl _⟩
+  | var =>
+    refine ⟨?_, VarStack.step_inv v .push hi trivial, ?_⟩
+    · simp [Block.ops, VarStack.runOps, VOp.ok]
+    · simp [Block.ops, VarStack.step]
+  | seq a b iha ihb =>
+    obtain ⟨ha1, ha2, ha3⟩ := iha v hi hw.1
+    obtain ⟨hb1, hb2, hb3⟩ := ihb (a.ops v).2 ha2 hw.2
+    refine ⟨?_, hb2, Nat.le_trans ha3 hb3⟩
+    simp only [Block.ops]
+    rw [VarStack.runOps_append, ha1]
+    exact hb1
+  | frame body ih =>
+    have hi1 : (v.step .push).Inv := VarStack.step_inv v .push hi trivial
+    obtain ⟨h1, h2, h3⟩ := ih (v.step .push) hi1 hw
+    have hsz : (v.step .push).size = v.size + 1 := by simp [VarStack.step]
+    have hp := VarStack.pops_ok ((body.ops (v.step .push)).2.size - v.size) (body.ops (v.step .push)).2 (by omega) h2
+    refine ⟨?_, hp.2.2, ?_⟩
+    · simp only [Block.ops, VarStack.runOps, VOp.ok, if_true]
+      rw [VarStack.runOps_append, h1]
+      exact hp.1
+    · simp only [Block.ops]
+      rw [hp.2.1]; omega
+  | withIdx k body ih =>
+    have hok : VOp.ok v (.setIdx k) = true := by
+      cases k with
+      | none => rfl
+      | some j => simpa [VOp.ok] using hw.1
+    have hi1 : (v.step (.setIdx k)).Inv := VarStack.step_inv v _ hi ((VOp.ok_iff v _).mp hok)
+    obtain ⟨h1, h2, h3⟩ := ih (v.step (.setIdx k)) hi1 hw.2
+    have hsz : (v.step (.setIdx k)).size = v.size := by cases k <;> simp [VarStack.step]
+    have hle : v.idx ≤ (body.ops (v.step (.setIdx k))).2.size := by
+      unfold VarStack.Inv at hi; omega
+    have hok2 : VOp.ok (body.ops (v.step (.setIdx k))).2 (.setIdx (some v.idx)) = true := by simpa [VOp.ok] using hle
+    refine ⟨?_, ?_, ?_⟩
+    · simp only [Block.ops, VarStack.runOps, hok, if_true]
+      rw [VarStack.runOps_append, h1]
+      simp [VarStack.runOps, hok2]
+    · exact VarStack.step_inv _ _ h2 ((VOp.ok_iff _ _).mp hok2)
+    · have e : ((body.ops (v.step (.setIdx k))).2.step (.setIdx (some v.idx))).size =
+          (body.ops (v.step (.setIdx k))).2.size := rfl
+      simp only [Block.ops]; rw [e]; omega
+
+/-- **Abort anywhere.** Wherever an exception leaves a well-nested transformation — after any prefix of its
+stack operations — the `VariablesStack` satisfies the invariant `MidOk` asks for. -/
+theorem Block.abort_anywhere (b : Block) (pre post : List VOp) (h : (b.ops ⟨0, 0⟩).1 = pre ++ post)
+    (hw : b.WF ⟨0, 0⟩) : ∃ w, VarStack.runOps ⟨0, 0⟩ pre = some w ∧ w.Inv := by
+  have hrun := (Block.ops_ok b ⟨0, 0⟩ (Nat.le_refl 0) hw).1
+  rw [h] at hrun
+  obtain ⟨u, hu⟩ := VarStack.runOps_prefix pre post _ _ hrun
+  exact ⟨u, hu, VarStack.runOps_inv pre ⟨0, 0⟩ u (Nat.le_refl 0) hu⟩
+
 end XalanModel.C06
